@@ -497,6 +497,8 @@ for nm, what, q in [
 ]:
     H("C15", f"debugger::eval::verif_h::{nm}", EVALF, tier=("quick" if q else "thorough"), replayable=False, covers=2, stubs=EVAL_STUBS2, timeout=3000, mem_gb=24,
       functions=["eval_inner", "AsmLine::backpatch", "AsmLine::emit", "AsmLine::bit_offs"], what=what, bounds="one eval; label name 'ab'")
+H("C15", "parser::verif_h::c15_pre_simple_keeps_everything", PAR, covers=1, stubs=[FMT, "Cursor::advance_real -> next token of the harness's queue (lexing is decided by the lexer harnesses)"], timeout=2400, mem_gb=24, functions=["preprocess_simple"],
+  what="eval's token pass drops only comments/whitespace: `.end` and what follows stay visible to parse_simple's surplus check", bounds="4 tokens (label, blank, .end, label); symbolic offsets")
 for nm, what in [("c15_parse_simple_ret", "parse_simple on `ret` with / without a surplus token of any kind"),
                  # (c15_parse_simple_not -- `not` with 0..3 operand tokens -- ran out of memory at 30 GB: not registered)
                  ("c15_parse_simple_not_an_instruction", "parse_simple on a non-instruction token / nothing: Err")]:
